@@ -70,8 +70,10 @@ CHECKS["C06"] = {
             "every br / br_cond names an existing block and no br names its own block (C06_jump_targets_exist); and the first half of the second clause: EVERY block of "
             "every body has its terminator -- control never runs off the end (C06_every_block_terminated, by counting open blocks through the whole translator: each "
             "construct closes exactly the labels it marked, so a successful walk leaves the current block as the only open one, C06_walk_leaves_one_open_block, and the "
-            "final pass closes it). The general theorem that every accepted program passes the whole checker (C06_builder_ok_full: also that no REACHABLE block ends in the "
-            "unreachable marker, return consistency and define-before-use) is stated but not proved. Two genuine defects found by this "
+            "final pass closes it). The third clause at the level of return statements, for any code: when resolve_return_type gives the body a type, every return carries a "
+            "value assignable to it -- a value body has no bare `return`, a void body returns no value (C06_every_return_fits_the_return_type, "
+            "C06_value_body_has_no_bare_return). The general theorem that every accepted program passes the whole checker (C06_builder_ok_full: also that no REACHABLE "
+            "block ends in the unreachable marker, and define-before-use) is stated but not proved. Two genuine defects found by this "
             "check were repaired by fix: commits (F2/F14, F18).",
     "technique": "Coq soundness proof of a CFG/dataflow checker + per-program evaluation of the verified checker on the real IR (translation validation) + differential execution model/code",
     "design_ref": "5 C06",
